@@ -317,6 +317,14 @@ theorem runEnv_cycle_idle (env : Env) (l : Limits) (now : Int) (hist : List Rec)
 
 theorem viewOf_zero (r : Rec) (h : List Rec) (t : Int) : viewOf (r :: h) 0 t = r := rfl
 
+theorem runEnv_skipped (env : Env) (l : Limits) (now : Int) (hist : List Rec) (view : Nat) (stored : Bool) (dt : Nat)
+    (rest : List EStep) :
+    runEnv env l now hist (.skipped view stored dt :: rest) =
+      .skipped (now + dt) :: runEnv env l (now + dt)
+        (if stored && (hist[view]?).isNone then fromScratch (now + dt) :: hist else hist) rest := rfl
+
+theorem attempts_cons_skipped (t : Int) (rest : List Ev) : attempts (.skipped t :: rest) = attempts rest := rfl
+
 /-! ### the timer -/
 
 theorem timerReset_unfinished {r : Rec} (h : r.finished = false) (now : Int) : timerReset r now = r := by
@@ -329,8 +337,14 @@ theorem timerReset_success {r : Rec} (hf : r.finished = true) (hn : r.failure = 
     timerReset r now = fromScratch now := by
   simp [timerReset, hf, hn]
 
-theorem fromScratch_awakened (now : Int) : (fromScratch now).awakened now = true := by
+theorem fromScratch_awakened (now t : Int) : (fromScratch now).awakened t = true := by
   simp [fromScratch, Rec.awakened, Rec.sleeping, Rec.finished]
+
+theorem timerAt_ge (now iu : Int) : now ≤ timerAt now iu := by
+  unfold timerAt; split <;> omega
+
+theorem timerAt_of_le {now iu : Int} (h : iu ≤ now) : timerAt now iu = now := by
+  unfold timerAt; split <;> omega
 
 theorem finished_of_failure {r : Rec} (h : r.failure = true) : r.finished = true := by
   simp [Rec.finished, h]
@@ -341,25 +355,25 @@ theorem failure_false_of_unfinished {r : Rec} (h : r.finished = false) : r.failu
 theorem success_false_of_unfinished {r : Rec} (h : r.finished = false) : r.success = false := by
   simp only [Rec.finished, Bool.or_eq_false_iff] at h; exact h.1
 
-/-- One iteration of the timer's loop: either the (possibly reset) record is awake and executed, or
-    nothing is awakened and the record is kept. -/
-theorem timerRun_step (env : Env) (l : Limits) (iv : Nat) (sh : Bool) (now : Int) (r : Rec) (x : Raised) (dur : Nat)
+/-- One iteration of the timer's loop: either the (possibly reset) record is awake (after the idle
+    wait) and executed, or nothing is awakened and the record is kept. -/
+theorem timerRun_step (env : Env) (l : Limits) (iv : Nat) (sh : Bool) (iu now : Int) (r : Rec) (x : Raised) (dur : Nat)
     (rest : List (Raised × Nat)) :
-    ((timerReset r now).awakened now = true ∧
-      timerRun env l iv sh now r ((x, dur) :: rest) =
-        .att (attemptAt env l now (timerReset r now) x dur 0) ::
-          timerRun env l iv sh (timerNext iv sh (attemptAt env l now (timerReset r now) x dur 0))
-            (attemptAt env l now (timerReset r now) x dur 0).recAfter rest) ∨
-    ((timerReset r now).awakened now = false ∧
-      timerRun env l iv sh now r ((x, dur) :: rest) =
-        .idle now (timerReset r now).finished ::
-          timerRun env l iv sh (timerIdleNext iv sh (timerReset r now) now) (timerReset r now) rest) := by
-  cases h : (timerReset r now).awakened now
+    ((timerReset r now).awakened (timerAt now iu) = true ∧
+      timerRun env l iv sh iu now r ((x, dur) :: rest) =
+        .att (attemptAt env l (timerAt now iu) (timerReset r now) x dur 0) ::
+          timerRun env l iv sh iu (timerNext iv sh (attemptAt env l (timerAt now iu) (timerReset r now) x dur 0))
+            (attemptAt env l (timerAt now iu) (timerReset r now) x dur 0).recAfter rest) ∨
+    ((timerReset r now).awakened (timerAt now iu) = false ∧
+      timerRun env l iv sh iu now r ((x, dur) :: rest) =
+        .idle (timerAt now iu) (timerReset r now).finished ::
+          timerRun env l iv sh iu (timerIdleNext iv sh (timerReset r now) (timerAt now iu)) (timerReset r now) rest) := by
+  cases h : (timerReset r now).awakened (timerAt now iu)
   · right; exact ⟨rfl, by simp [timerRun, h]⟩
   · left; exact ⟨rfl, by simp [timerRun, h]⟩
 
 /-- What the reset leaves of a record when the iteration is idle: the record itself. -/
-theorem timerReset_idle {r : Rec} {now : Int} (h : (timerReset r now).awakened now = false) :
+theorem timerReset_idle {r : Rec} {now t : Int} (h : (timerReset r now).awakened t = false) :
     timerReset r now = r := by
   cases hf : r.finished with
   | false => exact timerReset_unfinished hf now
@@ -431,5 +445,117 @@ theorem minList_spec (xs : List Int) (m : Int) (h : minList xs = some m) : m ∈
       have := (minList_none_iff rest).1 hnone
       subst this
       exact ⟨List.mem_cons_self, by intro y hy; simp at hy; omega⟩
+
+/-! ### one-step read-backs and glue (demoted from the property theorems) -/
+
+/-- Without limits a temporary error is always retried, with exactly the requested delay. -/
+theorem temp_retried_unlimited (env : Env) (l : Limits) (r : Rec) (now : Int) (dur : Nat) (d : Option Int)
+    (ht : l.timeout = none) (hr : l.retries = none) :
+    classify env l r now dur (.temporary d) = retryWith d := by
+  simp [classify, precheck, timedOut, retriesOut, ht, hr, post, lookahead]
+
+
+/-! ### restarts between cycles are time passing (glue) -/
+
+theorem squashFrom_spec (env : Env) (l : Limits) (steps : List Step) :
+    ∀ (now : Int) (acc : Nat) (r : Rec),
+      attempts (run env l (now + acc) r steps) = attempts (run env l now r (squashFrom acc steps)) := by
+  induction steps with
+  | nil => intro now acc r; rfl
+  | cons s rest ih =>
+    intro now acc r
+    cases s with
+    | restart dn =>
+      rw [run_restart, attempts_cons_restarted]
+      simp only [squashFrom]
+      rw [← ih now (acc + dn) r]
+      congr 2
+      omega
+    | cycle dt wait x dur lag =>
+      simp only [squashFrom]
+      have e : now + ↑acc + ↑dt = now + ↑(acc + dt) := by omega
+      cases hg : r.awakened (now + ↑acc + ↑dt) with
+      | true =>
+        rw [run_cycle_awake _ _ _ _ _ _ _ _ _ _ hg, run_cycle_awake _ _ _ _ _ _ _ _ _ _ (by rw [← e]; exact hg)]
+        rw [attempts_cons_att, attempts_cons_att, ← e]
+        congr 1
+        have := ih (attemptAt env l (now + ↑acc + ↑dt + ↑wait) r x dur lag).merged 0
+          (attemptAt env l (now + ↑acc + ↑dt + ↑wait) r x dur lag).recAfter
+        simpa using this
+      | false =>
+        rw [run_cycle_idle _ _ _ _ _ _ _ _ _ _ hg, run_cycle_idle _ _ _ _ _ _ _ _ _ _ (by rw [← e]; exact hg)]
+        rw [attempts_cons_idle, attempts_cons_idle, ← e]
+        have := ih (now + ↑acc + ↑dt) 0 r
+        simpa using this
+
+/-- Restarts anywhere in a history change nothing but the clock: the attempts (times, retry
+    numbers, outcomes, records) are those of the restart-free history in which every downtime is
+    added to the wait before the next cycle. -/
+theorem restart_invariant (env : Env) (l : Limits) (now : Int) (r : Rec) (steps : List Step) :
+    attempts (run env l now r steps) = attempts (run env l now r (squash steps)) ∧
+    ∀ s ∈ squash steps, ∀ dn, s ≠ .restart dn := by
+  constructor
+  · have := squashFrom_spec env l steps now 0 r
+    simpa [squash] using this
+  · have H : ∀ (steps : List Step) (acc : Nat), ∀ s ∈ squashFrom acc steps, ∀ dn, s ≠ .restart dn := by
+      intro steps
+      induction steps with
+      | nil => intro acc s hs; cases hs
+      | cons s' rest ih =>
+        intro acc s hs dn
+        cases s' with
+        | restart d => exact ih _ s hs dn
+        | cycle dt wait x dur lag =>
+          simp only [squashFrom] at hs
+          rcases List.mem_cons.1 hs with rfl | hs'
+          · intro h; cases h
+          · exact ih _ s hs' dn
+    exact H steps 0
+
+
+/-- An idle cycle changes nothing: the rest of the history is the history of the SAME record. -/
+theorem uninvoked_state_unchanged (env : Env) (l : Limits) (now : Int) (r : Rec) (dt wait : Nat) (x : Raised)
+    (dur lag : Nat) (rest : List Step) (h : r.awakened (now + dt) = false) :
+    attempts (run env l now r (.cycle dt wait x dur lag :: rest)) = attempts (run env l (now + dt) r rest) := by
+  rw [run_cycle_idle _ _ _ _ _ _ _ _ _ _ h, attempts_cons_idle]
+
+
+/-- A due, unfinished handler within its limits IS invoked in the cycle: the head event of the run is
+    an invocation at its turn, with the stored count as retry number. -/
+theorem due_is_invoked (env : Env) (l : Limits) (now : Int) (r : Rec) (dt wait : Nat) (x : Raised) (dur lag : Nat)
+    (rest : List Step) (hf : r.finished = false) (hd : ∀ D, r.delayed = some D → D ≤ now + dt)
+    (hp : precheck l r (now + dt + wait) = none) :
+    ∃ a, (run env l now r (.cycle dt wait x dur lag :: rest)).head? = some (.att a) ∧
+      a.out.invoked = true ∧ a.time = now + dt + wait ∧ a.retry = r.retries := by
+  rw [run_cycle_awake _ _ _ _ _ _ _ _ _ _ (awakened_of hf hd)]
+  exact ⟨_, rfl, (classify_invoked_iff ..).2 hp, rfl, rfl⟩
+
+/-- "is retried": after an attempt whose outcome was not final, a cycle at or after the requested
+    delay, still within the limits, invokes the handler again, with the next retry number. -/
+theorem retried_as_event (env : Env) (l : Limits) (now : Int) (r : Rec) (x : Raised) (dur lag : Nat)
+    (dt' wait' : Nat) (x' : Raised) (dur' lag' : Nat) (rest : List Step)
+    (hnf : (attemptAt env l now r x dur lag).out.final = false)
+    (hd : ∀ d, (attemptAt env l now r x dur lag).out.delay = some d → d ≤ dt')
+    (hp : precheck l (attemptAt env l now r x dur lag).recAfter
+            ((attemptAt env l now r x dur lag).merged + dt' + wait') = none) :
+    ∃ b, (run env l (attemptAt env l now r x dur lag).merged (attemptAt env l now r x dur lag).recAfter
+            (.cycle dt' wait' x' dur' lag' :: rest)).head? = some (.att b) ∧
+      b.out.invoked = true ∧ b.retry = r.retries + 1 := by
+  have hfin : (attemptAt env l now r x dur lag).recAfter.finished = false := by
+    rw [attemptAt_finished]; exact hnf
+  obtain ⟨b, h1, h2, _, h4⟩ := due_is_invoked env l _ _ dt' wait' x' dur' lag' rest hfin
+    (by
+      intro D hD
+      cases hdl : (attemptAt env l now r x dur lag).out.delay with
+      | none =>
+        simp only [attemptAt, withOutcome_delayed] at hD hdl
+        rw [hdl] at hD; cases hD
+      | some d =>
+        rw [attemptAt_delayed env l now r x dur lag d hdl] at hD
+        cases hD
+        have := hd d hdl
+        omega) hp
+  exact ⟨b, h1, h2, by rw [h4]; rfl⟩
+
 
 end Kopf.C11
